@@ -24,7 +24,9 @@ VERIF = os.path.dirname(os.path.dirname(os.path.abspath(__file__)))
 SRC = os.path.realpath(os.environ.get("VERIF_SIMFILE_SRC", "/repo"))
 # where evidence/ and replays/ are written; only diverted when checks are pointed at a scratch copy (seeded changes)
 OUT = os.environ.get("VERIF_OUT") or VERIF
+VERIF_DIR = os.path.dirname(os.path.dirname(os.path.abspath(__file__)))
 NPROC = int(os.environ.get("VERIF_NPROC", "0")) or (os.cpu_count() or 1)
+STRIDE = int(os.environ.get("VERIF_SHARD_STRIDE", "0") or 0)  # > 1: reduced pass over every STRIDE-th shard (internal)
 CASE_TIMEOUT_S = float(os.environ.get("VERIF_CASE_TIMEOUT", "30"))
 
 _simfile = None
@@ -264,6 +266,9 @@ def pmap(fn, shards, seed=0, nproc=None):
     """
     global _FN
     shards = list(shards)
+    if STRIDE > 1:
+        # reduced pass (see Run.optimized_pass): every STRIDE-th shard only
+        shards = shards[seed % STRIDE::STRIDE]
     total = Acc()
     nproc = nproc or NPROC
     _FN = fn
@@ -366,8 +371,43 @@ class Run:
                 print(line, flush=True)
 
     # -- finishing ----------------------------------------------------------
+    def optimized_pass(self):
+        """
+        Environment dimension "interpreter mode": the same exploration, reduced to every 16th shard of the quick tier,
+        once more under `python -O` (assert statements compiled away, __debug__ false).  Its violations are added
+        to this run's, marked, with the interpreter flag recorded in the replay file.
+        """
+        import subprocess
+        import tempfile
+        if STRIDE > 1 or os.environ.get("VERIF_FAILFAST") or os.environ.get("VERIF_NO_OPT_PASS") or sys.flags.optimize:
+            return
+        t0 = time.time()
+        tmp = tempfile.mkdtemp(prefix="verif-opt-")
+        try:
+            env = dict(os.environ, VERIF_SHARD_STRIDE="16", VERIF_OUT=tmp, VERIF_TIER="quick", VERIF_SEED=str(self.seed), PYTHONHASHSEED="0", PYTHONDONTWRITEBYTECODE="1")
+            p = subprocess.run([sys.executable, "-O", "-W", "ignore", "-m", "mc.run", self.prop, "--tier", "quick"], cwd=VERIF_DIR, env=env, capture_output=True, text=True, timeout=3600)
+            lines = [l for l in p.stdout.splitlines() if l.startswith("REDUCED-VIOLATION ")]
+            summary = [l for l in p.stdout.splitlines() if l.startswith("REDUCED-SUMMARY ")]
+            if p.returncode not in (0, 1) or not summary:
+                raise MachineryError("reduced pass under python -O failed: " + (p.stderr or p.stdout)[-600:])
+            info = json.loads(summary[0][len("REDUCED-SUMMARY "):])
+            for l in lines:
+                v = json.loads(l[len("REDUCED-VIOLATION "):])
+                self.acc.violation("under python -O: " + v["clause"], dict(v.get("case") or {}, interpreter="-O"), v.get("expected"), v.get("observed"), signature=("python -O", v["clause"]))
+            self.extra["reduced_pass_python_O"] = {"shards": "every 16th of the quick tier", "states": info.get("states"), "evaluations": info.get("evaluations"), "violations": len(lines), "wall_s": round(time.time() - t0, 1)}
+        finally:
+            import shutil
+            shutil.rmtree(tmp, ignore_errors=True)
+
     def finish(self, states, transitions, evaluations, distinct_nontrivial, exhaustive=True):
         acc = self.acc
+        if STRIDE > 1:
+            # reduced pass: report on stdout only (the parent run owns evidence and replays)
+            for v in acc.violations:
+                print("REDUCED-VIOLATION " + json.dumps(jsonable(v), ensure_ascii=True))
+            print("REDUCED-SUMMARY " + json.dumps({"states": int(states), "evaluations": int(evaluations), "violations": int(acc.violation_count)}), flush=True)
+            return 1 if acc.violations else 0
+        self.optimized_pass()
         wall = time.time() - self.t0
         replay_paths = []
         if acc.violations:
@@ -449,8 +489,8 @@ class Run:
 
 def require(cond, what):
     """Vacuity guard: the exploration must have seen what it is meant to see."""
-    if os.environ.get("VERIF_FAILFAST"):
-        return  # partial run of a mutation sweep: coverage is incomplete by design
+    if os.environ.get("VERIF_FAILFAST") or STRIDE > 1:
+        return  # partial run (mutation sweep / reduced pass under another interpreter mode): incomplete by design
     if not cond:
         raise MachineryError(f"vacuity guard failed: {what}")
 
